@@ -46,7 +46,8 @@ def run_mcs(jobs):
 
 def standard(prop, tier, mc_jobs, driver, trace_module, trace_cfg, canaries, level, rule,
              assumptions, trigger=None, driver_args=(), deque=False, sample_n=3, nshards=None,
-             extra_cov=None, trusted=None, post=None, env=None, wd=None, traces=None, summaries=None, clause_filter=None):
+             extra_cov=None, trusted=None, post=None, env=None, wd=None, traces=None, summaries=None, clause_filter=None,
+             extras=()):
     """canaries: list of functions(traces) -> (corrupted copy of one trace, description) or None.
     trigger: function(trace)->bool, the property's trigger kind (non-trivial traces)."""
     oc = Outcome(prop, tier)
@@ -100,6 +101,46 @@ def standard(prop, tier, mc_jobs, driver, trace_module, trace_cfg, canaries, lev
                     continue
                 if oc.violation(c, tr.get('cls', 'any'), {'trace_id': tid, 'clauses': clauses, 'cfg': tr.get('cfg')}, tr):
                     nviol += 1
+    extra_info = []
+    for xi, x in enumerate(extras):
+        xtraces, xsum = run_driver(x['driver'], wd, tier, nshards=nshards, args=x.get('args', ()), env=env)
+        base = 10 ** 7 * (xi + 1)
+        for tr in xtraces:
+            tr['id'] += base
+        xcan = []
+        for fn in x.get('canaries', ()):
+            r = fn(xtraces)
+            if r is None:
+                raise MachineryError('canary %s found no trace to corrupt' % getattr(fn, '__name__', fn))
+            ctr = copy.deepcopy(r[0])
+            ctr['id'] = base * 5 + len(xcan)
+            xcan.append((ctr, r[1]))
+        xres = tlc.validate_traces(x['module'], x['cfg'], xtraces + [c for c, _ in xcan], prop + '_x%d' % xi, deque=deque, env=env)
+        xver = xres['verdicts']
+        for ctr, desc in xcan:
+            v = xver.pop(ctr['id'])
+            canary_report.append({'corruption': desc, 'verdict': v[0], 'clauses': v[1]})
+            if v[0] == 'OK' or (clause_filter and v[0] == 'VIOLATION' and not any(clause_filter(c) for c in v[1])):
+                raise MachineryError('binding canary accepted: %s' % desc)
+        xby = {tr['id']: tr for tr in xtraces}
+        for tid_, (v, clauses) in sorted(xver.items()):
+            tr = xby[tid_]
+            if v == 'REJECTED':
+                rejected.append(tid_)
+                by_id[tid_] = tr
+            elif v == 'VIOLATION':
+                for c in clauses:
+                    if c.startswith('DRIFT'):
+                        drift[c] = drift.get(c, 0) + 1
+                    elif clause_filter and not clause_filter(c):
+                        other[c] = other.get(c, 0) + 1
+                    elif oc.violation(c, tr.get('cls', 'any'), {'trace_id': tid_, 'clauses': clauses, 'cfg': tr.get('cfg')}, tr):
+                        nviol += 1
+        traces = traces + xtraces
+        summaries = (summaries or []) + xsum
+        extra_info.append({'module': x['module'], 'traces': len(xtraces), 'tlc_states': xres['states'], 'wall_s': xres['wall_s']})
+        res['states'] += xres['states']
+        res['distinct'] += xres['distinct']
     if rejected:
         tr = by_id[rejected[0]]
         p = os.path.join(wd, 'rejected_trace.json')
@@ -129,6 +170,7 @@ def standard(prop, tier, mc_jobs, driver, trace_module, trace_cfg, canaries, lev
         'rule': rule,
         'samples': [_shrink(tr) for tr in traces[:sample_n]],
         'canaries': canary_report,
+        'additional_trace_sets': extra_info,
         'drift_from_detailed_model': drift,
         'clauses_of_other_properties_seen': other,
         'driver_counts': tot,
